@@ -633,6 +633,19 @@ func (e *SpecEnv) binary(n *ast.BinaryExpr) SVal {
 	if at.Sort == SString && n.Op == token.ADD {
 		return SVal{strConcat(at, bt), tyString}
 	}
+	if at.Sort == SString {
+		// byte-wise order of strings (Go's), which for the ASCII strings compared in crd is str.< / str.<=
+		switch n.Op {
+		case token.LSS:
+			return SVal{mk("str.<", SBool, at, bt), tyBool}
+		case token.LEQ:
+			return SVal{mk("str.<=", SBool, at, bt), tyBool}
+		case token.GTR:
+			return SVal{mk("str.<", SBool, bt, at), tyBool}
+		case token.GEQ:
+			return SVal{mk("str.<=", SBool, bt, at), tyBool}
+		}
+	}
 	switch n.Op {
 	case token.LSS:
 		return SVal{Lt(at, bt), tyBool}
@@ -869,7 +882,7 @@ func (e *SpecEnv) callExpr(n *ast.CallExpr) SVal {
 				e.v.linkFuncValue(e.st, f.T.Int64(), sig)
 			}
 			return SVal{t, sig.Results().At(0).Type()}
-		case "rangeseen", "rangekey":
+		case "rangeseen", "rangekey", "rangecount":
 			// the innermost running iteration over a map of unknown contents: rangeseen(k) - key k has been
 			// handed out (the current one included); rangekey() - the key of the current iteration
 			var it *iterInfo
@@ -880,6 +893,9 @@ func (e *SpecEnv) callExpr(n *ast.CallExpr) SVal {
 			}
 			if it == nil {
 				e.fail(n, "%s: no iteration over a map of unknown contents is running", id.Name)
+			}
+			if id.Name == "rangecount" {
+				return SVal{it.count, tyInt}
 			}
 			if id.Name == "rangekey" {
 				if it.curKey == nil {
